@@ -220,13 +220,19 @@ class SpawnProcess(multiprocessing.context.SpawnProcess):
                 error = OSError(exitcode, msg)
                 error.__cause__ = exc
 
-        self._logger_queue_.put(None)
         self._result_and_error_.close()
         self._result_and_error_ = None
         if error is not None:
             self._future_.set_exception(error)
         else:
             self._future_.set_result(result)
+
+        # The child flushes its log records to the queue before it exits. Stop the
+        # logger thread only after that; otherwise the stop marker may overtake
+        # records (which are then lost) or the child may block on a full pipe
+        # that is no longer read.
+        multiprocessing.connection.wait([self.sentinel])
+        self._logger_queue_.put(None)
 
     @staticmethod
     def _finalize(logger_thread, q):
@@ -338,6 +344,8 @@ class SpawnProcess(multiprocessing.context.SpawnProcess):
             return
 
         self._result_collector_thread_.join()
+        self._logger_thread_.join()
+        # All log records of the child have been handled.
 
         # exitcode = self.exitcode
         # if exitcode is None:
